@@ -30,6 +30,12 @@ pub enum F {
     /// English function name (Debug name of the engine's enum, e.g. "Sum")
     Call(&'static str, Vec<F>),
     Arr(Vec<Vec<F>>),
+    /// a LAMBDA parameter / LET variable
+    Var(&'static str),
+    /// LAMBDA(params..., body)(args...) — immediately invoked
+    LambdaCall(Vec<&'static str>, Box<F>, Vec<F>),
+    /// LET(name, value, body)
+    Let(&'static str, Box<F>, Box<F>),
 }
 
 pub struct Dialect {
@@ -108,6 +114,18 @@ pub fn print(f: &F, d: &Dialect) -> String {
             let parts: Vec<String> = args.iter().map(|a| print(a, d)).collect();
             format!("{}({})", d.fname(name), parts.join(&d.arg_sep.to_string()))
         }
+        F::Var(v) => v.to_string(),
+        F::LambdaCall(params, body, args) => {
+            let sep = d.arg_sep.to_string();
+            let mut inner: Vec<String> = params.iter().map(|p| p.to_string()).collect();
+            inner.push(print(body, d));
+            let args: Vec<String> = args.iter().map(|a| print(a, d)).collect();
+            format!("{}({})({})", d.fname("Lambda"), inner.join(&sep), args.join(&sep))
+        }
+        F::Let(name, value, body) => {
+            let sep = d.arg_sep.to_string();
+            format!("{}({name}{sep}{}{sep}{})", d.fname("Let"), print(value, d), print(body, d))
+        }
         F::Arr(rows) => {
             let parts: Vec<String> = rows
                 .iter()
@@ -122,7 +140,14 @@ pub const BINOPS: &[&str] = &["=", "<>", "<", ">", "<=", ">=", "&", "+", "-", "*
 pub const SHEETS: &[&str] = &["Sheet1", "Sheet2", "My Sheet"];
 
 pub fn leaf(rng: &mut StdRng) -> F {
-    match rng.gen_range(0..16) {
+    match rng.gen_range(0..19) {
+        16 => F::LambdaCall(
+            vec!["a", "b"],
+            Box::new(F::Bin("+", Box::new(F::Bin("*", Box::new(F::Var("a")), Box::new(F::Num("10".into())))), Box::new(F::Var("b")))),
+            vec![F::Num("1".into()), F::Ref("B2".into())],
+        ),
+        17 => F::LambdaCall(vec!["x"], Box::new(F::Neg(Box::new(F::Var("x")))), vec![F::Num("2.5".into())]),
+        18 => F::Let("v", Box::new(F::Num("3".into())), Box::new(F::Bin("&", Box::new(F::Var("v")), Box::new(F::Str("ab".into()))))),
         0 => F::Num("1".into()),
         1 => F::Num("2.5".into()),
         2 => F::Num("0".into()),
